@@ -295,3 +295,7 @@ func init() {
 	prop("C05", "C19-R1/txnid") // locks are owned by transaction id (seed C05/d)
 	prop("C12", "C05-R3")       // an aborted attempt of a statement leaves nothing visible (seed C12/d)
 }
+
+func init() {
+	prop("C15", "C15-R7")
+}
